@@ -19,6 +19,7 @@ from vf.core import raise_site
 from vf.monitor import Probes
 from vf.shrink import shrink_tokens
 
+MIN_RANDOM = 150  # random iterations run per shard whatever the wall-clock budget (floors must not depend on machine load)
 SHARDS = {"quick": 4, "thorough": 16}
 BUDGET = {"quick": 20, "thorough": 240}
 MIN_CASES = {"quick": 20000, "thorough": 400000}
@@ -691,7 +692,7 @@ def run(ctx):
         # (3) seeded random
         n = 0
         lim = 25000 if not thorough else 10 ** 8
-        while ctx.time_left() and n < lim:
+        while (ctx.time_left() or n < MIN_RANDOM) and n < lim:
             n += 1
             r = rng.random()
             if r < 0.35:
